@@ -621,6 +621,13 @@ func probesFor(o geojson.Object) []geojson.Object {
 				Max: geometry.Point{X: r.Min.X + w*q[2]/8, Y: r.Min.Y + h*q[3]/8}}))
 		}
 	}
+	// collection probes, with an empty member and nested (Rect / Polygon receivers treat collections through
+	// WithinRect / WithinPoly: the representation options must not change those answers)
+	grid = append(grid,
+		geojson.NewGeometryCollection([]geojson.Object{geojson.NewPoint(c), geojson.NewMultiPoint(nil)}),
+		geojson.NewFeatureCollection([]geojson.Object{geojson.NewFeature(geojson.NewPoint(r.Min), ""),
+			geojson.NewFeature(geojson.NewGeometryCollection([]geojson.Object{geojson.NewLineString(geometry.NewLine(nil, nil)), geojson.NewPoint(r.Max)}), "")}),
+		geojson.NewMultiPoint([]geometry.Point{c, r.Min}))
 	return append(grid,
 		geojson.NewPoint(c),
 		geojson.NewPoint(r.Min),
